@@ -10,6 +10,14 @@ function scope that binds the name"), `types.FunctionType` (`closure[i]` is the 
 `__globals__` is the dict passed), the `def` statement (`execDef`) and attribute forwarding of bound
 methods.  They are validated against the running interpreter by `harness/run_c09.py` on every run.
 
+Contents: `C09_source_shape` (tie to the source text through the translator), `C09_resolution` (the
+factory's free variables are an instance of the general scoping rule), `C09_cells`, `C09_cells_user`,
+`C09_cells_complete`, `C09_shared_code`, `C09_siblings` (name → cell mapping), `C09_rebinding`,
+`C09_rebinding_frame` (what sharing a cell means for reads and writes), `C09_succeeds`, `C09_mismatch`
+(when `instantiate` is ok), `C09_params`, `C09_erase_shape`, `C09_defaults_not_reevaluated`,
+`C09_defaults_independent_of_reeval`, `C09_defaults_partial`, `C09_call_interface_partial`, `C09_globals`,
+`C09_method`, `C09_decorators`, the assembled `C09_interface_partial`, and three counterexamples.
+
 Three deviations of the pinned tree are stated as counterexamples below; the corresponding theorems carry
 the decidable hypotheses `directiveOnlyFreevar = false`, `annotationUnresolvable = false`,
 `defaultsCleared = false` and are named `…_partial`.
@@ -70,6 +78,44 @@ private theorem sorted_sortDedup (l : List Name) : (sortDedup l).Pairwise (· < 
 
 private theorem nodup_sortDedup (l : List Name) : (sortDedup l).Nodup :=
   (sorted_sortDedup l).imp (fun h => Nat.ne_of_lt h)
+
+private theorem sorted_ext : ∀ (l₁ l₂ : List Name), l₁.Pairwise (· < ·) → l₂.Pairwise (· < ·) →
+    (∀ x, x ∈ l₁ ↔ x ∈ l₂) → l₁ = l₂
+  | [], [], _, _, _ => rfl
+  | [], b :: u, _, _, h => absurd ((h b).mpr (by simp)) (by simp)
+  | a :: t, [], _, _, h => absurd ((h a).mp (by simp)) (by simp)
+  | a :: t, b :: u, h₁, h₂, h => by
+    rw [List.pairwise_cons] at h₁ h₂
+    have hab : a = b := by
+      rcases List.mem_cons.mp ((h a).mp (by simp)) with h1 | h1
+      · exact h1
+      · rcases List.mem_cons.mp ((h b).mpr (by simp)) with h2 | h2
+        · exact h2.symm
+        · have e1 : b < a := h₂.1 a h1
+          have e2 : a < b := h₁.1 b h2
+          exact absurd e1 (Nat.lt_asymm e2)
+    subst hab
+    have ht : ∀ x, x ∈ t ↔ x ∈ u := by
+      intro x
+      constructor
+      · intro hx
+        rcases List.mem_cons.mp ((h x).mp (List.mem_cons_of_mem _ hx)) with h1 | h1
+        · have e1 : a < x := h₁.1 x hx
+          rw [h1] at e1
+          exact absurd e1 (Nat.lt_irrefl _)
+        · exact h1
+      · intro hx
+        rcases List.mem_cons.mp ((h x).mpr (List.mem_cons_of_mem _ hx)) with h1 | h1
+        · have e1 : a < x := h₂.1 x hx
+          rw [h1] at e1
+          exact absurd e1 (Nat.lt_irrefl _)
+        · exact h1
+    rw [sorted_ext t u h₁.2 h₂.2 ht]
+
+/-- `sortDedup` depends only on the set of members. -/
+private theorem sortDedup_congr {l₁ l₂ : List Name} (h : ∀ x, x ∈ l₁ ↔ x ∈ l₂) :
+    sortDedup l₁ = sortDedup l₂ :=
+  sorted_ext _ _ (sorted_sortDedup l₁) (sorted_sortDedup l₂) (fun x => by rw [mem_sortDedup, mem_sortDedup, h])
 
 private theorem length_le_of_nodup_subset : ∀ {l₁ l₂ : List Name}, l₁.Nodup → (∀ x ∈ l₁, x ∈ l₂) →
     l₁.length ≤ l₂.length
@@ -334,6 +380,50 @@ private theorem defKwdefaults_none_of_kwWithDefault_nil (re : Nat → ObjId) (a 
 `transform_function`, `_erase_arg_defaults`, `visit_FunctionDef` and `converted_call` read off the working
 tree by the translator is the shape this model encodes. -/
 theorem C09_source_shape : Malt.Gen.Closure.shape = modelledShape := by decide
+
+/-- **The factory's free variables are what the general scoping rule gives** for the generated nesting
+`outer_factory ⊃ inner_factory ⊃ entity` (the general rule `Scope.coFreevars` is the part compared with the
+real compiler on random nestings): the outer factory has no free variables, the inner factory's are
+`factoryFreevars`, the entity's are `entityFreevars`. -/
+theorem C09_resolution (declared extra : List Name) (inner : Name) (e : Entity) (es : Scope)
+    (hes : es.freeNames = e.bodyRefs) :
+    let outer := outerFactoryScope declared inner extra e es
+    let innerS := innerFactoryScope extra e es
+    Scope.coFreevars [] outer = [] ∧
+    Scope.coFreevars (Scope.childEnv [] outer) innerS = factoryFreevars declared inner extra e ∧
+    Scope.coFreevars (Scope.childEnv (Scope.childEnv [] outer) innerS) es
+      = entityFreevars declared inner extra e := by
+  refine ⟨?_, ?_, ?_⟩
+  · have hf : ∀ l : List Name, l.filter (fun _ => false) = [] := by
+      intro l; induction l <;> simp_all
+    simp [Scope.coFreevars, sortDedup, hf]
+  · simp only [Scope.coFreevars, innerFactoryScope, outerFactoryScope, Scope.childEnv, Scope.freeNames,
+      Scope.freeNamesList, hes, factoryFreevars, List.filter_nil, List.nil_append, List.append_nil]
+    apply sortDedup_congr
+    intro x
+    simp only [List.mem_filter, List.mem_append, List.mem_singleton, Bool.and_eq_true, decide_eq_true_eq,
+      Bool.not_eq_true', decide_eq_false_iff_not, List.not_mem_nil, not_false_eq_true, and_true, innerBound]
+    constructor
+    · rintro ⟨⟨h1 | h1 | h1, h2⟩, h3⟩
+      · exact ⟨Or.inl h1, of_decide_eq_true h3, h2⟩
+      · exact ⟨Or.inr h1, of_decide_eq_true h3, h2⟩
+      · exact absurd (Or.inr h1) h2
+    · rintro ⟨h1 | h1, h3, h2⟩
+      · exact ⟨⟨Or.inl h1, h2⟩, decide_eq_true h3⟩
+      · exact ⟨⟨Or.inr (Or.inl h1), h2⟩, decide_eq_true h3⟩
+  · simp only [Scope.coFreevars, innerFactoryScope, outerFactoryScope, Scope.childEnv, hes, entityFreevars,
+      List.filter_nil, List.nil_append]
+    apply sortDedup_congr
+    intro x
+    simp only [List.mem_filter, List.mem_append, Bool.or_eq_true, decide_eq_true_eq, List.not_mem_nil,
+      decide_false, Bool.not_false]
+    constructor
+    · rintro ⟨h1, ⟨h2, _⟩ | h2⟩
+      · exact ⟨h1, Or.inr h2⟩
+      · exact ⟨h1, Or.inl h2⟩
+    · rintro ⟨h1, h2 | h2⟩
+      · exact ⟨h1, Or.inr h2⟩
+      · exact ⟨h1, Or.inl ⟨h2, trivial⟩⟩
 
 /-- **Closure cells are matched by name** (for every closure shape, every order of the factory's and of
 the result's `co_freevars`): when `instantiate` succeeds, every free name of the new function that is a
@@ -844,6 +934,13 @@ example : directiveOnlyFreevar exSrc exFn.code.freevars = false ∧
     annotationUnresolvable exSrc exFn.code.freevars [9] = false ∧ defaultsCleared exSrc exFn = false := by
   decide
 
+/-- A scope tree of the example's generated entity satisfying the hypothesis of `C09_resolution` (the entity
+binds its parameters, mentions `b a G __class__ a ag__`, and contains a nested function using `a`). -/
+example : (Scope.mk [7, 8, 6] [] [4, 9, 0, 1, 2] [Scope.mk [20] [] [1, 20] []]).freeNames.length
+    = (convertEntity [2] 3 exSrc).bodyRefs.length ∧
+    (Scope.mk [7, 8, 6] [] [9, 0, 1, 2] [Scope.mk [20] [] [4, 1, 20] []]).freeNames
+    = (convertEntity [2] 3 exSrc).bodyRefs := by decide
+
 /-- `C09_cells` is permutation-robust: a factory whose `co_freevars` come in another order than the
 source's (and a closure tuple in the source's order) still maps every name to its own cell. -/
 example : instantiate (fun _ => 0)
@@ -863,6 +960,32 @@ example :
     let σ : Store := fun c => if c = .factoryLocal 2 then some 5 else none
     readVar (writeVar σ exFn 1 42) g 1 = some 42 ∧ readVar (writeVar σ exFn 1 42) g 2 = some 5 ∧
     readVar σ g 4 = none := by decide
+
+/-- Hypotheses of `C09_succeeds` on the example: every free variable still mentioned, `def`-time names
+resolvable (the annotation `G` is a global). -/
+example : (∀ x ∈ exFn.code.freevars, x ∈ (convertEntity [2] 3 exSrc).bodyRefs ∨ x ∈ (convertEntity [2] 3 exSrc).defTimeRefs) ∧
+    (∀ x ∈ (convertEntity [2] 3 exSrc).defTimeRefs,
+      x ∈ innerBound [2] (convertEntity [2] 3 exSrc).name ∨ x ∈ exFn.code.freevars ∨ x ∈ [9]) := by decide
+
+/-- `C09_shared_code`: two functions made by one maker (same code, different cells and defaults) instantiated
+from the one cached factory — each conversion holds its own function's cells. -/
+example :
+    let fac := create exFn.code.freevars [2] 5 (convertEntity [2] 3 exSrc)
+    let f₂ : Fn := { exFn with closure := [.outer 20, .outer 21, .outer 22], defaults := some [601] }
+    (instantiate (fun _ => 0) fac [9] 77 exFn.closure exFn.defaults exFn.kwdefaults).map (fun g => (g.closure, g.defaults))
+      = .ok ([.outer 10, .outer 11, .factoryLocal 2, .outer 12], some [501]) ∧
+    (instantiate (fun _ => 0) fac [9] 77 f₂.closure f₂.defaults f₂.kwdefaults).map (fun g => (g.closure, g.defaults))
+      = .ok ([.outer 20, .outer 21, .factoryLocal 2, .outer 22], some [601]) := by decide
+
+/-- A bound method (instance `7`) converts like its function; the instance goes first in the call. -/
+example : transformFunction (fun _ => 0) [2] 3 5 [9] exSrc (.boundMethod 7 exFn)
+      = transformFunction (fun _ => 0) [2] 3 5 [9] exSrc (.function exFn) ∧
+    effectiveArgs (.boundMethod 7 exFn) [31, 32] = [7, 31, 32] := by decide
+
+/-- The top-level decorator `<d0>` of the example is gone; a nested function's decorators stay, artifact last. -/
+example : (convertEntity [2] 3 exSrc).decorators = [] ∧
+    functionsPassDecorators 3 [.user 4, .user 5] = [.user 4, .user 5, .autographArtifact] ∧
+    (convertEntity [2] 3 exSrc).args.defEvalTrace = [] ∧ exSrc.args.defEvalTrace = [0, 1] := by decide
 
 /-! ## Counterexamples: the three deviations of the pinned tree -/
 
